@@ -130,6 +130,18 @@ CHECKS["C04"] = dict(
     technique="chempy's own symbolic ODE builders as front-end, sympy->z3 translation, z3 validity proof per generated equation",
     ref="DESIGN.md section 5 C04")
 
+CHECKS["C06"] = dict(
+    engine="Z", category="other",
+    text="bounded symbolic verification of the ONE solver-checkable sentence of C06 - the advertised safe explicit-Euler step: the real "
+         "closure returned by get_odesys is executed with a symbolic state y >= 0 and an ARBITRARY symbolic derivative vector (f_cb "
+         "stubbed), upper bounds from the real upper_conc_bounds (infinite for species without elemental composition); z3 proves "
+         "0 <= h <= 1 and 0 <= y_i + h*f_i <= ub_i on every path",
+    note="NOT claimed (not applicable to this technique): agreement of integrated trajectories with matrix exponentials / closed forms, "
+         "non-negativity of integrated trajectories - these run inside LSODA/CVODE through pyodesys where no symbolic value survives; "
+         "stubs: odesys.to_arrays/pre_process identity, f_cb arbitrary reals, upper_conc_bounds called with dtype=object; systems with "
+         "<= 4 (thorough 6) substances",
+    technique=Z, ref="DESIGN.md section 5 C06")
+
 NA = {
     "C09": "property is about float conversion factors produced inside the 'quantities' package and numpy array helpers; no symbolic "
            "value survives to_unitless (float(result)), and symbolic magnitudes alone would only re-prove linearity (DESIGN.md section 6)",
